@@ -268,6 +268,24 @@ func Discharge(o *Obligation, dir string, timeoutS int, seed int, all bool) {
 		}
 	}
 	cancel()
+	if best.status != want && best.status != "sat" && best.status != "unsat" && !noRetry {
+		// no definite answer (timeout/unknown): one more race with four times the budget, so that a loaded
+		// machine does not turn a slow proof into an alarm
+		cctx2, cancel2 := context.WithCancel(ctx)
+		ch2 := make(chan solveOutcome, len(Solvers))
+		for _, s := range Solvers {
+			go func(s SolverCfg) { ch2 <- runSolver(cctx2, s, file, 4*timeoutS) }(s)
+		}
+		for i := 0; i < len(Solvers); i++ {
+			x := <-ch2
+			outs = append(outs, x.solver+" (retry): "+x.status)
+			if x.status == want || x.status == "sat" || x.status == "unsat" {
+				best = x
+				break
+			}
+		}
+		cancel2()
+	}
 	o.Status, o.Solver, o.Seconds = best.status, best.solver, time.Since(start).Seconds()
 	if o.Status == "sat" && !o.Vacuity {
 		for _, s := range Solvers {
@@ -313,6 +331,9 @@ func sanitizeFile(s string) string {
 // MaxFailures: once this many obligations have failed, the remaining ones are not attempted (status "skipped");
 // the check has already decided "violation" and every further failure would cost a full solver timeout.
 var MaxFailures = 6
+
+// noRetry disables the long second attempt (set by tests of the engine itself).
+var noRetry = false
 
 func DischargeAll(obls []*Obligation, dir string, timeoutS, seed, workers int, all bool) {
 	var wg sync.WaitGroup
@@ -365,6 +386,12 @@ func DischargeAll(obls []*Obligation, dir string, timeoutS, seed, workers int, a
 					}
 					continue
 				}
+				if o.Kind == "reach" {
+					saved := noRetry
+					_ = saved
+					dischargeQuick(o, dir, 4, seed)
+					continue
+				}
 				Discharge(o, dir, timeoutS, seed, all)
 				ok := (!o.Vacuity && o.Status == "unsat") || (o.Vacuity && o.Status == "sat")
 				if !ok {
@@ -382,4 +409,14 @@ func DischargeAll(obls []*Obligation, dir string, timeoutS, seed, workers int, a
 	}
 	close(ch)
 	wg.Wait()
+}
+
+// dischargeQuick: one solver, short budget, no retry (cover checks: an inconclusive answer is not an alarm).
+func dischargeQuick(o *Obligation, dir string, timeoutS, seed int) {
+	file := filepath.Join(dir, sanitizeFile(o.Name)+".smt2")
+	_ = os.WriteFile(file, []byte(o.Render(seed)), 0o644)
+	o.SMT = file
+	start := time.Now()
+	r := runSolver(context.Background(), Solvers[0], file, timeoutS)
+	o.Status, o.Solver, o.Seconds = r.status, r.solver, time.Since(start).Seconds()
 }
